@@ -17,6 +17,10 @@
 //     as a value counts as called by the function that mentions it;
 //   - for every function the set of data-file write sites and log write sites it can reach.
 //
+//   - the same census for the reader/writer lock: every use of fileStore.mtx (a method call RLock /
+//     RUnlock / Lock / Unlock, or an escape) and which of them each function can reach: a callee that
+//     the protocol extraction does not inline must not lock or unlock anything.
+//
 // The result is written to Gen/IoSites.v as plain lists; Proofs/IoSitesSound.v evaluates the
 // soundness conditions on them (a closed boolean computation checked by the kernel).
 package main
@@ -133,8 +137,9 @@ func census(dir string) (*ioCensus, error) {
 	}
 	dataF := field("fileStore", "file")
 	logF := field("wal", "reader")
-	if dataF == nil || logF == nil {
-		return nil, fmt.Errorf("fileStore.file or wal.reader not found")
+	mtxF := field("fileStore", "mtx")
+	if dataF == nil || logF == nil || mtxF == nil {
+		return nil, fmt.Errorf("fileStore.file, fileStore.mtx or wal.reader not found")
 	}
 	target := func(v types.Object) string {
 		switch v {
@@ -142,6 +147,8 @@ func census(dir string) (*ioCensus, error) {
 			return "data"
 		case logF:
 			return "log"
+		case mtxF:
+			return "lock"
 		}
 		return ""
 	}
@@ -376,8 +383,20 @@ func writeIoSites(c *ioCensus, classes map[string]string, outDir string) (bool, 
 		fmt.Fprintf(&b, "(\"%s\", \"%s\", \"%s\")", s.Fn, s.Method, s.Target)
 	}
 	b.WriteString("].\n\n")
-	for _, tg := range []string{"data", "log"} {
+	for _, tg := range []string{"data", "log", "lock"} {
 		r := c.reach(tg)
+		if tg == "lock" {
+			b.WriteString("(* for every function of package storage: the operations on fileStore.mtx it can reach *)\n")
+			b.WriteString("Definition reaches_lock_op : list (string * list string) :=\n  [")
+			for i, f := range c.funcs {
+				if i > 0 {
+					b.WriteString(";\n   ")
+				}
+				fmt.Fprintf(&b, "(\"%s\", %s)", f, coqStrList(r[f]))
+			}
+			b.WriteString("].\n\n")
+			continue
+		}
 		fmt.Fprintf(&b, "(* for every function of package storage: the %s-file write sites it can reach through the call graph *)\n", tg)
 		fmt.Fprintf(&b, "Definition reaches_%s_write : list (string * list string) :=\n  [", tg)
 		for i, f := range c.funcs {
